@@ -174,9 +174,10 @@ CHECKS = {
     "C02": dict(
         level="model_checking",
         rule="part 1: a rich composite sync (create, in-place update, recreate, delete undesired, adopt, release; desired names occupied by a foreign-owned object and by a non-matching orphan; same-named look-alikes in the other namespace) under dynamic and server-side apply x every request boundary (0 = before the sync: stale cache) x environment action (delete, delete+recreate, foreign controller, clear owners, relabel) x target object(8), then a second sync on the partly stale caches; "
-             "part 2: two parents with overlapping selectors syncing concurrently, all interleavings at API-request granularity with <= 2 (thorough 3) preemptions; every store-changing request is judged against its logged pre-state",
+             "part 2: two parents with overlapping selectors syncing concurrently, all interleavings at API-request granularity with <= 2 (thorough 3) preemptions; part 3: the decorator counterpart (attachments controlled by the target AND carrying the decorator's marker; environment action 'other decorator's marker'); every store-changing request is judged against its logged pre-state",
         units=[
             dict(pkg=COMPOSITE, test="TestVerifC02", shards=dict(quick=8, thorough=16), budget=dict(quick=600, thorough=1800)),
+            dict(pkg=DECORATOR, test="TestVerifC02", shards=dict(quick=4, thorough=8), budget=dict(quick=600, thorough=1800)),
         ],
         assumptions=SIM_ASSUMPTIONS + ["'modified' = the store changed (a byte-identical update accepted as a no-op is not judged)", "one environment deviation per run (thorough: the second sync adds a second stale step)"],
     ),
